@@ -274,6 +274,16 @@ def r6(ctx):
         reach = [v for v in (-1.0, 0.0, 0.5, 1000.0) if evr.may_hold(fa, {"self.taskInterval": v, "_task_manager": True})]
         ok = reach == [0.5, 1000.0] and not evr.may_hold(fa, {"self.taskInterval": None, "_task_manager": True})
     ctx.check("RecurringTask.install_task:positive-interval", ok, where(rt.module, g), "a recurring task with a missing, zero or negative interval must be refused (it would re-fire for ever at the same instant)")
+    # explicit interval / offset arguments replace the stored ones for every value that is not None (0 is a value)
+    for prm, fld in (("interval", "taskInterval"), ("offset", "taskIntervalOffset")):
+        sts = [s_ for t, s_ in stores_in(g) if is_self_attr(t, fld) and isinstance(s_, ast.Assign) and norm(s_.value) == prm]
+        okp = len(sts) == 1
+        if okp:
+            fa = facts_at(sts[0])
+            reach = [repr(v) for v in (None, 0, 0.0, 250, 1000.0) if evr.may_hold(fa, {prm: v}) and (v is None or evr.must_hold(fa, {prm: v}))]
+            okp = reach == [repr(v) for v in (0, 0.0, 250, 1000.0)]
+        ctx.check("RecurringTask.install_task:%s-argument" % prm, okp, where(rt.module, g),
+                  "install_task(%s=v) must store v for every v that is not None, including 0 (values stored: %s)" % (prm, reach if sts else "never stored"))
     # next slot is strictly after now: formula shape (values are floating point: declined) -- structural part: taskTime is assigned before install
     st = [s for t, s in stores_in(g) if is_self_attr(t, "taskTime")]
     ok = len(st) == 1 and inst and st[0].lineno < inst[0].lineno
@@ -413,11 +423,11 @@ def r8(ctx):
             raise ShapeError("core.%s: drain loop not found" % fname)
         lp = loops[0]
         lst = norm(lp.iter)
-        blk = getattr(lp, "_parent", None)
-        body = blk.body if lp in getattr(blk, "body", []) else getattr(blk, "orelse", [])
-        i = body.index(lp)
-        det = [s for s in body[:i] if isinstance(s, ast.Assign) and norm(s.targets[0]) == lst and norm(s.value) == "deferredFns"]
-        fresh = [s for s in body[:i] if isinstance(s, ast.Assign) and norm(s.targets[0]) == "deferredFns" and isinstance(s.value, ast.List) and not s.value.elts]
+        from ..paths import statements_before
+        wl0 = [l for l in enclosing_loops(lp) if isinstance(l, ast.While)]
+        before = [s for s in statements_before(lp, f) if not wl0 or (s.lineno > wl0[0].lineno)]
+        det = [s for s in before if isinstance(s, ast.Assign) and norm(s.targets[0]) == lst and norm(s.value) == "deferredFns"]
+        fresh = [s for s in before if isinstance(s, ast.Assign) and norm(s.targets[0]) == "deferredFns" and isinstance(s.value, ast.List) and not s.value.elts]
         ctx.check("core.%s:detach-before-calls" % fname, len(det) == 1 and len(fresh) == 1 and det[0].lineno < fresh[0].lineno, where(m, lp),
                   "the batch must be detached (fnlist = deferredFns; deferredFns = []) before the first call, so that functions deferred during the batch run in the next one")
         ctx.check("core.%s:in-order" % fname, isinstance(lp.iter, ast.Name), where(m, lp), "the batch must be iterated in list order (found %s)" % lst)
